@@ -9,6 +9,7 @@ import (
 	"sort"
 	"strings"
 	"sync"
+	"time"
 
 	"github.com/lidofinance/dc4bc/fsm/fsm"
 	sif "github.com/lidofinance/dc4bc/fsm/state_machines/signing_proposal_fsm"
@@ -70,10 +71,18 @@ func c06(tier string, args []string) int {
 		if r.TimeUp() {
 			break
 		}
-		s, t, info := explore06(r, nt.n, nt.t)
+		s, t, info := explore06(r, nt.n, nt.t, false)
 		totS += s
 		totT += t
 		per = append(per, fmt.Sprintf("n=%d t=%d: states=%d transitions=%d %s", nt.n, nt.t, s, t, info))
+		if nt.n == 3 && nt.t == 2 {
+			// the same exploration with the key older than the confirmation deadline: the batches
+			// are proposed, answered and stamped 8 days after the key generation
+			s, t, info = explore06(r, nt.n, nt.t, true)
+			totS += s
+			totT += t
+			per = append(per, fmt.Sprintf("n=%d t=%d [clock +8d]: states=%d transitions=%d %s", nt.n, nt.t, s, t, info))
+		}
 	}
 	r.Set("states", totS)
 	r.Set("transitions", totT)
@@ -83,9 +92,14 @@ func c06(tier string, args []string) int {
 	return finish(r)
 }
 
-func explore06(r *kit.Run, n, t int) (int, int, string) {
+func explore06(r *kit.Run, n, t int, agedKey bool) (int, int, string) {
 	sw := SetupSignWorld(r, n, t, 1)
 	defer sw.Close()
+	if agedKey {
+		// the key generation happened at T0; everything from here on is 8 days later
+		world.SetClock(world.T0.Add(8 * 24 * time.Hour))
+		defer world.SetClock(world.T0)
+	}
 	k := sw.Workers[0]
 	round := sw.Round
 	batches := []Batch{
@@ -139,7 +153,7 @@ func explore06(r *kit.Run, n, t int) (int, int, string) {
 		if s >= n {
 			s = 0
 		}
-		req := requests.SignatureProposalConfirmationErrorRequest{ParticipantId: p, Error: requests.NewFSMError(errors.New("signing failed")), CreatedAt: world.T0}
+		req := requests.SignatureProposalConfirmationErrorRequest{ParticipantId: p, Error: requests.NewFSMError(errors.New("signing failed")), CreatedAt: vtimeNow()}
 		m := world.SignedMessage(round, string(sif.EventSigningPartialSignError), world.MustJSON(req), k.W.Nodes[s].Name, k.W.Nodes[s].KeyPair.Priv, "")
 		alphabet = append(alphabet, in06{Label: fmt.Sprintf("error(%d)", p), Kind: "error", PID: p, Msg: m})
 	}
@@ -349,3 +363,5 @@ func containsStr(l []string, x string) bool {
 	}
 	return false
 }
+
+func vtimeNow() time.Time { return world.Clock() }
